@@ -142,7 +142,7 @@ function layoutProgram (rng) {
 module.exports = {
   id: 'C09',
   level: 'exploration',
-  rule: 'for every modified output the embedded map is decoded by an independent VLQ decoder; monitors: v3 envelope; sources == [basename(file)]; every mapping inside the input text; every copied variable reference/binding of the output (acorn AST, injected names excluded) has a mapping starting exactly at it that lands exactly on the same identifier text in the input; every mapped token of the output lies, after statement-level alignment of output and input, within the line span of the original statement it belongs to (injected let: enclosing block; prologue: must not be mapped). Workload: corpus, catalogue, random programs, layout programs (multi-line statements, CRLF, BOM, tabs, non-ASCII before identifiers), hostile file names. distinct_nontrivial = distinct (input, config, file) outputs whose map was fully checked.',
+  rule: 'for every modified output the embedded map is decoded by an independent VLQ decoder; monitors: v3 envelope; sources == [basename(file)]; every mapping inside the input text; every copied variable reference/binding of the output (acorn AST, injected names excluded) has a mapping starting exactly at it that lands exactly on the same identifier text in the input; every mapped token of the output lies, after statement-level alignment of output and input, within the line span of the original statement it belongs to (injected let: enclosing block; prologue: must not be mapped). Workload: corpus, catalogue, random programs, layout programs (multi-line statements, CRLF, BOM, tabs, non-ASCII before identifiers), hostile file names. distinct_nontrivial = distinct (input, config, file) outputs whose map was fully checked. Workload additions: corpus files with enabled operations spliced onto randomly chosen expression nodes (25 wrappers x every expression slot; only texts V8 still compiles), the syntax zoo with LF/CRLF/CR line endings, a CRLF slice of the corpus.',
   assumptions: ['columns are UTF-16 code units on both sides (what V8 reports)', 'inputs with HTML-like comments (<!-- / -->) are skipped: swc positions the following token inside the comment', 'lines end at LF, CRLF or a lone CR (swc, V8 and acorn agree); inputs with raw U+2028 / U+2029 are skipped and counted: swc does not count them as line breaks while V8 and acorn do, so which line is the right one is not defined by the statement', 'files whose statements cannot be aligned (count mismatch) only get the envelope/range/identifier checks and are counted'],
   plan (ctx) {
     const shards = [{ kind: 'layout', count: ctx.tier === 'thorough' ? 6000 : 800 }]
